@@ -15,7 +15,7 @@ def run(v, tier, seed, wd):
     rowf = os.path.join(wd, "histories.ndjson")
     vlib.write_ndjson(rowf, rows)
     obs = os.path.join(wd, "lifecycle.ndjson")
-    rc, out = vlib.run("%s replay %s > %s" % (exe, rowf, obs), timeout=3000)
+    rc, out = vlib.run("%s replay %s > %s" % (exe, rowf, obs), timeout=3000, mem_gb=16)
     if rc != 0:
         v.violation({"what": "reusing encoder / decoder / buffer objects along a call history crashed", "rc": rc, "output": out[-1500:]}, tags={"kind": "crash_reuse"})
         return
@@ -26,9 +26,9 @@ def run(v, tier, seed, wd):
     ncases = 600 if quick else 6000
     for name, env, prefix in envs:
         f = os.path.join(wd, "det_%s.ndjson" % name)
-        rc, out = vlib.run("%s%s random %d %d expdims > %s" % (prefix, rt, seed + 3, ncases, f), timeout=3000, env=env)
+        rc, out = vlib.run("%s%s random %d %d expdims > %s" % (prefix, rt, seed + 3, ncases, f), timeout=3000, env=env, mem_gb=16)
         if rc != 0 and prefix:
-            rc, out = vlib.run("%s random %d %d expdims > %s" % (rt, seed + 3, ncases, f), timeout=3000, env=env)   # setarch may be unavailable
+            rc, out = vlib.run("%s random %d %d expdims > %s" % (rt, seed + 3, ncases, f), timeout=3000, env=env, mem_gb=16)   # setarch may be unavailable
         if rc != 0:
             v.violation({"what": "codec crashed under a different heap layout (%s)" % name, "rc": rc, "output": out[-1000:]}, tags={"kind": "crash"})
             return
